@@ -279,6 +279,19 @@ def gen_plan(rng, tier):
                 sp["options"] = copy.deepcopy(base)
                 sp["scale"] = "default"
                 sp["share_key"] = "A"
+    if nslots >= 2 and rng.random() < 0.12:
+        # twin timelines: the same data and options except for ONE engine option
+        twin = copy.deepcopy(slots[0])
+        lab = dict(twin["options"].get("labella") or {})
+        lab.setdefault("maxPos", rng.choice([200, 360]))
+        slots[0]["options"]["labella"] = dict(lab)
+        k = rng.choice(["density", "stubWidth", "nodeSpacing", "maxPos", "algorithm"])
+        lab[k] = {"density": rng.choice([0.4, 0.6, 1]), "stubWidth": rng.choice([3, 8]), "nodeSpacing": rng.choice([0, 9]),
+                  "maxPos": lab["maxPos"] + rng.choice([60, 150]), "algorithm": rng.choice(["simple", "overlap"])}[k]
+        twin["options"]["labella"] = lab
+        twin.pop("share_key", None)
+        slots[0].pop("share_key", None)
+        slots[1] = twin
     initial = copy.deepcopy(slots)
     constructed = [False] * nslots
     nfile = 0
@@ -291,7 +304,8 @@ def gen_plan(rng, tier):
             if swarm["faults"]["abort"] and rng.random() < p:
                 return {"kind": "abort", "frac": rng.randrange(0, 1000000),
                         "scope": rng.choice(["any", "any", "timeline.py", "vpsc.py", "scale.py", "d3_time.py",
-                                             "renderer.py", "force.py"]),
+                                             "renderer.py", "force.py", "distributor.py", "distributor.py",
+                                             "removeOverlap.py", "node.py", "tex.py"]),
                         "exc": rng.choice(["SimAbort", "MemoryError", "KeyboardInterrupt"])}
             return None
 
